@@ -2,16 +2,17 @@ from ..fam import list as listfam
 
 
 from ..fam import history
+from ..fam import strf
 
 
 def cases(tier):
-    return history.cases(tier, 2) + listfam.cases(tier, 'func')
+    return history.cases(tier, 2) + listfam.cases(tier, 'func') + strf.cases(tier, 'C09')
 
 
 def meta(tier):
     i = listfam.info(tier)
     return {'level': 'model_checking', 'bounds': i['bounds'],
-            'outside': ['lists longer than the bound', 'element sizes not listed', 'qgrow_addstrf and the *_debug printers (formatting / stdio output)',
+            'outside': ['lists longer than the bound', 'element sizes not listed', 'qgrow_addstrf: only the buffer management around vsnprintf with the format "%s" (strf queries, first buffer scaled to 8 bytes by the guarded hook); formatting itself and the *_debug printers (stdio output) are outside',
                         'three-call histories through the public API (every triple of operation kinds, symbolic arguments) in addition to the inductive argument: base (constructors) + one step from every well-formed state within the bound'],
             'stubs': i['stubs'],
             'assumptions': [i['prestate'], 'malloc does not fail here (C15 covers failure)', 'single logical thread (C13 covers interleavings)'],
